@@ -285,7 +285,8 @@ def _k5_job(job):
                 s.push(); s.add(z3.Or(tobv(r.f[0].f[0], 32) != sl, tobv(r.f[0].f[1], 32) != sc))
                 if chk() == z3.sat: wit('C05/K5/start-position', 'range start is not the line/character of the span start')
                 s.pop()
-                s.push(); s.add(z3.Or(tobv(r.f[1].f[0], 32) != el, tobv(r.f[1].f[1], 32) != ec))
+                onb2 = z3.And([(b[p_] & 0xC0) != 0x80 for p_ in (start, end) if 0 < p_ < N] or [z3.BoolVal(True)])
+                s.push(); s.add(onb2, z3.Or(tobv(r.f[1].f[0], 32) != el, tobv(r.f[1].f[1], 32) != ec))
                 if chk() == z3.sat: wit('C05/K5/end-position', 'range end is not the line/character of the span end')
                 s.pop()
                 if len(part.samples) < 1: part.samples.append({'N': N, 'span': [start, end], 'pc_terms': len(pr.pc)})
